@@ -286,19 +286,18 @@ void h_foreach (void)
 }
 void h_clear (void)
 {
-	_Bool notif = nondet_bool ();
-	PTree *t = build_tree (notif);
+	_Bool kn = nondet_bool (), vn = nondet_bool ();   /* key and value notifiers are independent: none, one of them, or both */
+	PTree *t = build_tree2 (kn, vn);
 	unsigned n0 = pre_count ();
 	g_frees = 0;
 	p_tree_clear (t);
 	OBL (t->root == NULL && p_tree_get_nnodes (t) == 0, "C12 clear: empties the tree");
 	OBL (g_frees == n0, "C12/C20 clear: every node released exactly once");
-	if (notif) {
-		OBL (g_nk == n0 && g_nv == n0, "C14 clear: one notification per stored key and value");
-		int p = nondet_int (); __CPROVER_assume (p >= 0 && p < NPOS);
-		if (g_present[p]) { unsigned c = 0, cv = 0; for (unsigned q = 0; q < LOGMAX; q++) { if (q < g_nk && g_klog[q] == g_kptr[p]) c++; if (q < g_nv && g_vlog[q] == g_val[p]) cv++; }
-			OBL (c == 1 && cv >= 1, "C14 clear: every stored key is passed to its notifier exactly once, every value at least once"); }
-	} else OBL (g_nk == 0 && g_nv == 0, "C14 clear: without notifiers user data is not touched");
+	OBL (g_nk == (kn ? n0 : 0u) && g_nv == (vn ? n0 : 0u), "C14 clear: each given notifier runs once per stored pair, a missing one never (user data it would own is not touched)");
+	int p = nondet_int (); __CPROVER_assume (p >= 0 && p < NPOS);
+	if (g_present[p]) { unsigned c = 0, cv = 0; for (unsigned q = 0; q < LOGMAX; q++) { if (q < g_nk && g_klog[q] == g_kptr[p]) c++; if (q < g_nv && g_vlog[q] == g_val[p]) cv++; }
+		OBL ((!kn || c == 1) && (!vn || cv >= 1), "C14 clear: every stored key is passed to its notifier exactly once, every value at least once"); }
+	if (kn != vn && n0 > 0) CANARY ("exactly one notifier");
 	p_tree_free (t);
 	CANARY ("end");
 }
